@@ -34,12 +34,16 @@ def _slim(spec):
 def rand_option_model(rng, cls, mprob_model):
     """model_kw of one constructor call; cls in dinuc / dinuc-subset / trinuc-subset / codon"""
     kw = dict(cls=cls, mprob_model=mprob_model)
-    if cls == "dinuc-subset":
-        words = ["".join(p) for p in itertools.product(NUCS, repeat=2)]
-        kw["motifs"] = sorted(rng.sample(words, rng.randint(6, 14)))
-    elif cls == "trinuc-subset":
-        words = ["".join(p) for p in itertools.product(NUCS, repeat=3)]
-        kw["motifs"] = sorted(rng.sample(words, rng.randint(8, 20)))
+    if cls in ("dinuc-subset", "trinuc-subset"):
+        L, lo, hi = (2, 6, 14) if cls == "dinuc-subset" else (3, 8, 20)
+        words = ["".join(p) for p in itertools.product(NUCS, repeat=L)]
+        # the subset always contains one pair of words one transition apart (the constructor refuses a model whose
+        # `kappa` predicate matches no instantaneous change)
+        w = rng.choice(words)
+        p = rng.randrange(L)
+        v = w[:p] + {"A": "G", "G": "A", "C": "T", "T": "C"}[w[p]] + w[p + 1:]
+        rest = [x for x in words if x not in (w, v)]
+        kw["motifs"] = sorted([w, v] + rng.sample(rest, rng.randint(lo, hi) - 2))
     elif cls == "codon":
         kw["gc"] = rng.choice([1, 2, 4, 5, 11, 3, 6])
     return kw
